@@ -1,9 +1,9 @@
 SPECIFICATION Spec
 CONSTANTS
-  Defs <- D1
-  Vectors <- V3
+  Defs <- DF
+  Vectors <- VF
   MaxOps = 3
-  BranchInputsMayBeLazy = TRUE
+  BranchInputsMayBeLazy = FALSE
   KeyOnContentOnly = FALSE
 INVARIANT Transparent
 INVARIANT NoLeak
